@@ -71,6 +71,8 @@ pub fn composites<V: Visitor>(v: &mut V) {
         Slice<Tup2<M8, StrS>>, Slice<Opt<StrS>>, Slice<Res<StrS, M8>>,
         Slice<Cip<StrS, IO>, IO>, Slice<Cip<Owned<u8>, VU>, VU>, Slice<Cip<StrS, IO>, IL>,
         Slice<VecR<u64>, IO>,
+        // inner index = arbitrary usize value: the compressed index lists see non-dense sequences
+        Slice<Mirror<usize>, IO>, Slice<Mirror<usize>, IL>, SliceN<Collapse<Cip<StrS, IO>>, IO>,
         SliceN<Columns<M8, IO>, IO>, SliceN<Collapse<StrS>>,
         SliceN<Columns<Tup3N<Mirror<usize>, Collapse<BytesR>, Collapse<StrS>>, IO>, VU>,
         // options / results / tuples
